@@ -116,6 +116,14 @@ class WorldA(object):
         from bromelia.setup import Diameter
         self.node = Diameter(config=node_config(self.mode, scn.get("apps", ()),
                                                 scn.get("watchdog", 30)))
+        self.abstract_states = set()
+        _orig_add = self.hist.add
+
+        def _add(kind, **kw):
+            ev = _orig_add(kind, **kw)
+            self.sample()
+            return ev
+        self.hist.add = _add
         self.delivered = []       # (seq, msg) returned by get_message()
         self.consumers = []
         self.api_calls = []       # records of API calls made by harness threads
@@ -176,7 +184,32 @@ class WorldA(object):
         self.consumers.append(rec)
         return rec
 
+    def sample(self):
+        """Abstract state of the node, read from plain attributes only (no
+        bromelia code is executed: this also runs in event context)."""
+        try:
+            psm = self.node._peer_state_machine
+            a = self.node._association
+            tr = getattr(a, "transport", None) if a is not None else None
+            tup = (self.mode[0],
+                   type(psm.current_state).__name__ if psm is not None else "-",
+                   getattr(tr, "events_mask", "-") if tr is not None else "-",
+                   bool(getattr(tr, "_send_buffer", b"")) if tr is not None else "-",
+                   bool(getattr(tr, "data_stream", b"")) if tr is not None else "-",
+                   bool(getattr(tr, "_recv_data_stream", b"")) if tr is not None else "-",
+                   bool(len(a._send_messages.queue)) if a is not None else "-",
+                   bool(len(a._recv_messages.queue)) if a is not None else "-",
+                   bool(len(a.postprocess_recv_messages.queue)) if a is not None else "-",
+                   bool(getattr(a, "_recv_pending", b"")) if a is not None else "-",
+                   bool(getattr(a, "_stop_threads", False)) if a is not None else "-",
+                   bool(getattr(tr, "_stop_threads", False)) if tr is not None else "-",
+                   tuple(sorted((t.role.split(":")[-1].split("#")[0], t.state[0]) for t in self.sim.threads if t.library)))
+            self.abstract_states.add(repr(tup))
+        except Exception:       # sampling must never disturb a run
+            pass
+
     def state(self):
+        self.sample()
         return self.node.get_current_state()
 
     def wait_state(self, states, timeout):
